@@ -43,7 +43,7 @@ def gen(r, tier):
                                          (1, "sep_rst"), (1, "sep_ack"), (1, "sep_only")]),
                     "delay": r.choice([0.005, 0.005, 0.05, 0.3, 1.0, 2.5]),
                     "mr": r.choice([0, 1, 2, 4]), "ato": r.choice([0.2, 0.5, 2.0])})
-        if ops[-1]["react"] == "piggy" and ops[-1]["con"] and r.chance(0.5):
+        if ops[-1]["con"] and ((ops[-1]["react"] == "piggy" and r.chance(0.5)) or (ops[-1]["react"] in ("rst", "silent") and r.chance(0.3))):
             # the application's own code fails when it is handed the outcome (it asked to observe, the answer says the
             # resource is not observable, the error callback it registered raises): the application's problem -- the
             # exchange is over all the same and the messages waiting behind it move up
